@@ -2,6 +2,7 @@ package props
 
 import (
 	"fmt"
+	"sort"
 	"go/types"
 	"strings"
 
@@ -52,10 +53,13 @@ func findFilter(p *core.Prog, r *core.Report, rule string) *filterInfo {
 	for i := 0; i < ms.Len(); i++ {
 		fn := p.SSA.MethodValue(ms.At(i))
 		if fn != nil && fn.Synthetic == "" && fn.Blocks != nil {
-			fi.Methods[ms.At(i).Obj().Name()] = fn
+			fi.Methods[ms.At(i).Obj().Name()] = p.Inl(fn)
 		}
 	}
-	fi.AllFuncs = p.PkgFuncs("util/netutil")
+	// every rule runs on the package's inlined views: code in a helper is judged with the locks its caller holds
+	for _, v := range pkgViews(p, "util/netutil") {
+		fi.AllFuncs = append(fi.AllFuncs, sx.WithClosures(v.Fn)...)
+	}
 	return fi
 }
 
@@ -93,7 +97,7 @@ func runC12(p *core.Prog, r *core.Report) {
 
 	// R1
 	for _, g := range fi.Guarded {
-		for _, ref := range sx.FieldRefs(p.ModuleFuncs(), g) {
+		for _, ref := range sx.FieldRefs(fi.AllFuncs, g) {
 			if sx.IsFreshObject(ref.Base) {
 				r.OK("C12-R1", fmt.Sprintf("%s in %s (constructor)", g.Name(), fnName(ref.Fn)), p.Pos(ref.Instr.Pos()), "object not yet published")
 				continue
@@ -127,7 +131,7 @@ func runC12(p *core.Prog, r *core.Report) {
 
 	// R2
 	for _, af := range fi.Atomic {
-		for _, ref := range sx.FieldRefs(p.ModuleFuncs(), af) {
+		for _, ref := range sx.FieldRefs(fi.AllFuncs, af) {
 			fa, ok := ref.Instr.(*ssa.FieldAddr)
 			if !ok {
 				continue
@@ -165,8 +169,8 @@ func runC12(p *core.Prog, r *core.Report) {
 	}
 
 	// R3 / R4
-	lockers := map[*ssa.Function]bool{}
-	for _, fn := range fi.AllFuncs {
+	lockers := map[*ssa.Function]bool{} // keyed by source function
+	for _, fn := range p.PkgFuncs("util/netutil") {
 		sx.Instrs(fn, func(in ssa.Instruction) {
 			if c, ok := in.(ssa.CallInstruction); ok {
 				switch sx.CalleeName(c) {
@@ -178,7 +182,7 @@ func runC12(p *core.Prog, r *core.Report) {
 	}
 	for changed := true; changed; {
 		changed = false
-		for _, fn := range fi.AllFuncs {
+		for _, fn := range p.PkgFuncs("util/netutil") {
 			if lockers[fn] {
 				continue
 			}
@@ -190,8 +194,14 @@ func runC12(p *core.Prog, r *core.Report) {
 			}
 		}
 	}
-	for name, fn := range fi.Methods {
-		if !lockers[fn] {
+	var mnames []string
+	for name := range fi.Methods {
+		mnames = append(mnames, name)
+	}
+	sort.Strings(mnames)
+	for _, name := range mnames {
+		fn := fi.Methods[name]
+		if !lockers[sx.OrigFunc(fn)] {
 			continue
 		}
 		nested := ""
@@ -211,7 +221,7 @@ func runC12(p *core.Prog, r *core.Report) {
 			case "(*sync.RWMutex).Lock", "(*sync.RWMutex).RLock", "(*sync.Mutex).Lock":
 				nested = fmt.Sprintf("lock acquired at %s while holding %s", p.Pos(in.Pos()), locksetString(held))
 			}
-			if callee := sx.StaticCallee(c); callee != nil && lockers[callee] {
+			if callee := sx.StaticCallee(c); callee != nil && lockers[sx.OrigFunc(callee)] {
 				nested = fmt.Sprintf("%s (which locks) called at %s while holding %s", fnName(callee), p.Pos(in.Pos()), locksetString(held))
 			}
 		})
@@ -223,7 +233,7 @@ func runC12(p *core.Prog, r *core.Report) {
 				case "(*sync.RWMutex).Lock", "(*sync.RWMutex).RLock", "(*sync.Mutex).Lock":
 					return sx.Range{Min: 1, Max: 1}
 				}
-				if callee := sx.StaticCallee(c); callee != nil && lockers[callee] {
+				if callee := sx.StaticCallee(c); callee != nil && lockers[sx.OrigFunc(callee)] {
 					return sx.Range{Min: 1, Max: 1}
 				}
 			}
